@@ -4,6 +4,7 @@ import (
 	"bytes"
 	"fmt"
 	"math/bits"
+	"runtime"
 	"sort"
 	"sync/atomic"
 
@@ -166,6 +167,7 @@ func runC03(c *Ctx) {
 		Name: "corpus x queries x arguments", Dims: []int{len(corpus)}, Deadline: c.Budget(60, 900),
 		Run: func(idx []int) (string, *ev.Fail) {
 			b := corpus[idx[0]].Build()
+			defer runtime.KeepAlive(b)
 			n, f := queryBattery(b.B, b.M)
 			atomic.AddInt64(&evals, int64(n))
 			return fmt.Sprint(n), f
@@ -177,6 +179,8 @@ func runC03(c *Ctx) {
 		Name: "Equals over corpus pairs", Dims: []int{len(corpus), len(corpus)}, Deadline: c.Budget(90, 1500),
 		Run: func(idx []int) (string, *ev.Fail) {
 			a, b := corpus[idx[0]].Build(), corpus[idx[1]].Build()
+			defer runtime.KeepAlive(a)
+			defer runtime.KeepAlive(b)
 			want := a.M.Equal(b.M)
 			if g := a.B.Equals(b.B); g != want {
 				return "", fail("Equals", "value", "Equals=%v want %v", g, want)
